@@ -19,9 +19,10 @@ EXPLANATION = (
     "for gates that take their dagger by toggling a flag and keeping the array, every reader of `.array` handles the flag first. "
     "Kets, bras and bits are the basis tensors of their bitstring. With C09 (evaluation is the layer-by-layer composite) and C08 "
     "(Tensor algebra) this gives: a pure circuit evaluates to the ordered product of its gates, and dagger to the conjugate "
-    "transpose. Not decided: rewire's permutation arithmetic; floating-point error.")
+    "transpose. rewire's index arithmetic is folded for all (a, b, width) up to a bound. Not decided: floating-point error.")
 
 GATES, CIRC = "discopy.quantum.gates", "discopy.quantum.circuit"
+G = GATES
 
 
 def ret_expr(body):
@@ -274,19 +275,148 @@ def check_eval_and_states(ctx):
            required="one axis of size 2 per input and output qubit: shape (2,) * 2n", mod=GATES, node=fn, sig="gate-layout")
 
 
+class _Ty(list):
+    def __pow__(self, k):
+        return _Ty(list(self) * k)
+
+    def __matmul__(self, o):
+        return _Ty(list(self) + list(o))
+
+
+def check_rewire(ctx):
+    """R11.6: gates.rewire puts the two wires of the gate on the requested qubits: the index arithmetic is folded for every (a, b, n) up to a bound"""
+    from ..fold import fold, Stub, CannotFold
+    m = ctx.model
+    q = G + ".rewire"
+    fn = m.func(q)
+    ctx.analysed(q)
+    N = 5 if ctx.tier == "quick" else 7
+    BUILT = {"len": len, "set": set, "min": min, "max": max, "list": list, "range": range, "abs": abs, "sorted": sorted, "tuple": tuple}
+
+    class Ret(Exception):
+        def __init__(self, node, env):
+            self.node, self.env = node, env
+
+    class Refuse(Exception):
+        pass
+
+    def store(t, v, env):
+        if isinstance(t, ast.Name):
+            env[t.id] = v
+        elif isinstance(t, ast.Subscript) and not isinstance(t.slice, ast.Slice):
+            fold(t.value, env)[fold(t.slice, env)] = v
+        elif isinstance(t, ast.Tuple):
+            v = list(v)
+            if len(v) != len(t.elts):
+                raise CannotFold("unpacking")
+            for e, x in zip(t.elts, v):
+                store(e, x, env)
+        else:
+            raise CannotFold("store to %s" % ast.unparse(t))
+
+    def run(body, env):
+        for st in body:
+            if isinstance(st, ast.Expr) and isinstance(st.value, ast.Constant):
+                continue
+            if isinstance(st, ast.If):
+                run(st.body if fold(st.test, env) else st.orelse, env)
+            elif isinstance(st, ast.Raise):
+                raise Refuse()
+            elif isinstance(st, ast.Return):
+                raise Ret(st.value, dict(env))
+            elif isinstance(st, ast.Assign) and len(st.targets) == 1:
+                v = st.value
+                if isinstance(v, ast.Call) and isinstance(v.func, ast.Attribute) and v.func.attr == "permutation":
+                    env["__perm__"] = list(fold(v.args[0], env))
+                    env["__perm_dom__"] = [fold(k.value, env) for k in v.keywords if k.arg == "dom"] + [fold(x, env) for x in v.args[1:2]]
+                    store(st.targets[0], Stub(kind="perm"), env)
+                elif isinstance(v, ast.IfExp) and any(isinstance(x, ast.BinOp) and isinstance(x.op, ast.RShift) for x in ast.walk(v)) or \
+                        (isinstance(v, ast.BinOp) and isinstance(v.op, ast.RShift)):
+                    env.setdefault("__op_expr__", []).append(v)          # the gate conjugated by swaps: kept symbolic
+                    store(st.targets[0], env[fn.args.args[0].arg], env)
+                else:
+                    store(st.targets[0], fold(v, env), env)
+            else:
+                raise CannotFold("statement %s" % ast.unparse(st)[:50])
+
+    opn, an, bn = (x.arg for x in fn.args.args[:3])
+    bad, n_inst, kinds, matched = [], 0, set(), set()
+    try:
+        for n in range(2, N + 1):
+            for a in range(n):
+                for b in range(n):
+                    if a == b:
+                        continue
+                    for dom in (_Ty(["q"] * n), None):
+                        if dom is None and max(a, b) + 1 != n:
+                            continue
+                        env = dict(BUILT, **{opn: Stub(dom=_Ty(["q", "q"]), cod=_Ty(["q", "q"])), an: a, bn: b, "dom": dom, "qubit": _Ty(["q"]), "SWAP": Stub(kind="swap")})
+                        try:
+                            run(fn.body, env)
+                            bad.append("rewire(op, %d, %d, n=%d) returns nothing" % (a, b, n))
+                        except Refuse:
+                            bad.append("rewire(op, %d, %d) on %d qubits is refused" % (a, b, n))
+                        except Ret as r:
+                            n_inst += 1
+                            e = r.env
+                            width = len(e["dom"])
+                            if "__perm__" in e:
+                                kinds.add("permuted")
+                                perm = e["__perm__"]
+                                if sorted(perm) != list(range(width)) or perm[0] != a or perm[1] != b:
+                                    bad.append("rewire(op, %d, %d) on %d qubits conjugates by the permutation %s: wires 0, 1 of the gate must go to qubits %d, %d" % (a, b, width, perm, a, b))
+                                if e["__perm_dom__"] != [e["dom"]]:
+                                    bad.append("the permutation is not built on the circuit's domain")
+                                if id(r.node) not in matched:
+                                    matched.add(id(r.node))
+                                    pv = next((t.id for st in fn.body if isinstance(st, ast.Assign) and isinstance(st.value, ast.Call) and isinstance(st.value.func, ast.Attribute)
+                                               and st.value.func.attr == "permutation" for t in st.targets if isinstance(t, ast.Name)), "perm")
+                                    shape.match(ctx, "R11.6", q + ":conjugation", r.node, "perm.dagger() >> op @ Box.id(len(dom) - 2) >> perm", {opn: "op", pv: "perm"}, mod=G, node=r.node, sig="rewire-conj",
+                                                required="the gate between the inverse permutation and the permutation")
+                            else:
+                                kinds.add("adjacent")
+                                x = r.node
+                                if not (isinstance(x, ast.BinOp) and isinstance(x.op, ast.MatMult) and isinstance(x.left, ast.BinOp) and isinstance(x.left.op, ast.MatMult)):
+                                    raise AnalysisError("rewire: return `%s` outside the recognised form id @ op @ id" % ast.unparse(x))
+                                l, mid, rr = x.left.left, x.left.right, x.right
+                                if not all(isinstance(i, ast.Call) and ast.unparse(i.func).endswith(".id") and len(i.args) == 1 for i in (l, rr)) or ast.unparse(mid) != opn:
+                                    raise AnalysisError("rewire: return `%s` outside the recognised form id @ op @ id" % ast.unparse(x))
+                                lw, rw = fold(l.args[0], e), fold(rr.args[0], e)
+                                if lw != min(a, b) or lw + 2 + rw != width:
+                                    bad.append("rewire(op, %d, %d) on %d qubits pads with %r and %r identity wires" % (a, b, width, lw, rw))
+                                swapped = [ast.unparse(v) for v in e.get("__op_expr__", [])]
+                                if (a > b) != bool(swapped):
+                                    bad.append("rewire(op, %d, %d): the gate is %sconjugated by SWAP" % (a, b, "" if swapped else "not "))
+                                for sv in swapped:
+                                    if sv.replace(" ", "") not in ("SWAP>>%s>>SWAPif%s.cod==%s.domelseSWAP>>%s" % (opn, opn, opn, opn), "SWAP>>%s>>SWAP" % opn):
+                                        raise AnalysisError("rewire: reversed adjacent form `%s` outside the recognised idiom" % sv)
+    except CannotFold as e:
+        raise AnalysisError("rewire outside the foldable idioms: %s" % e)
+    ctx.need(kinds == {"permuted", "adjacent"}, "rewire no longer has an adjacent and a permuted path (%s)" % sorted(kinds))
+    ctx.ob("R11.6", q, not bad, found=bad[:3] or "%d (a, b, width) instances folded: perm[0] = a, perm[1] = b, a permutation; adjacent pairs padded by min(a, b) wires" % n_inst,
+           required="the gate's wires 0 and 1 land on qubits a and b for all a != b (widths up to %d; Box.permutation sends i to perm[i], C10)" % N, mod=G, node=fn, sig="rewire")
+    # guards
+    src = [ast.unparse(s.test) for s in fn.body if isinstance(s, ast.If) and isinstance(s.body[-1], ast.Raise)]
+    ctx.ob("R11.6", q + ":guards", any("len(set([%s, %s])) != 2" % (an, bn) in t or "%s == %s" % (an, bn) in t for t in src) and any("%s.dom != qubit ** 2" % opn in t for t in src), found=src,
+           required="equal indices and gates that are not on two qubits are refused", mod=G, node=fn, sig="rewire-guards")
+
+
 def check(ctx):
     ctx.rule("R11.1", "gate tables and closed-form arrays, read [in, out], equal the tket matrices of the same name (phases in full turns); Controlled = diag(1, U)")
     ctx.rule("R11.2", "`_dagger=None` (self-adjoint) only on Hermitian tables")
     ctx.rule("R11.3", "dagger soundness: rotations negate the phase and M(-φ) = M(φ)†; flag-daggered gates: every reader of .array handles the flag first")
     ctx.rule("R11.4", "pure evaluation uses the tensor functor with ob = dimension and ar = array")
+    ctx.rule("R11.6", "rewire: the folded index arithmetic puts the gate's wires on the requested qubits")
     ctx.rule("R11.5", "kets, bras and bits are basis tensors of their bitstring; gate arrays have one axis per input/output qubit")
     check_tables(ctx)
     check_closed_forms(ctx)
     check_rotation_dagger(ctx)
     check_flag_readers(ctx)
     check_eval_and_states(ctx)
+    check_rewire(ctx)
+    ctx.floor("R11.6", 3)
     ctx.floor("R11.1", 15)
     ctx.floor("R11.2", 7)
     ctx.floor("R11.3", 20)
     ctx.floor("R11.5", 8)
-    ctx.not_decided += ["rewire's permutation arithmetic", "unitarity of composites (follows from C09 functoriality and the tables)", "floating-point error"]
+    ctx.not_decided += ["rewire on more qubits than the folded bound", "unitarity of composites (follows from C09 functoriality and the tables)", "floating-point error"]
